@@ -403,6 +403,14 @@ func BuildFileIndexFromJournal(path string, journal *ast.Journal) *FileIndex {
 }
 
 func resolveIncludePaths(basePath string, includes []ast.Include) []string {
+	resolved := resolveIncludePathsOrdered(basePath, includes)
+	sort.Strings(resolved)
+	return resolved
+}
+
+// resolveIncludePathsOrdered lists the files a journal includes in the order of its include
+// directives (the matches of a glob in path order), each file once.
+func resolveIncludePathsOrdered(basePath string, includes []ast.Include) []string {
 	if len(includes) == 0 {
 		return nil
 	}
@@ -438,7 +446,6 @@ func resolveIncludePaths(basePath string, includes []ast.Include) []string {
 			resolved = append(resolved, resolvedPath)
 		}
 	}
-	sort.Strings(resolved)
 	return resolved
 }
 
